@@ -30,7 +30,7 @@ func init() {
 		Quick: 300000, Thorough: 20000000,
 		Run:        runC02,
 		Rule:       "one run = one generated target type, an initial target state (zero or pre-populated: non-nil maps, slices, pointers, pointers to pointers, interface fields holding pointers) and a history of 2..8 decodes into the same target through Unmarshal / Parse(b,x,0) / Decoder.Decode with each subset of {UseNumber, DisallowUnknownFields}, mirrored step by step on encoding/json with an isomorphic target; documents are encoding/json's own encoding of fresh values of the type, mutated at the value-tree level (always syntactically valid JSON). non-trivial = at least one decode after the first hit a target that already held data (a non-empty prior state); distinct = distinct hash of (type, initial state, documents, entry points)",
-		FaultKinds: []string{"prior-state:prepopulated", "prior-state:left-by-earlier-decode", "prior-state:after-failed-decode(rebuilt)", "doc:null-subvalue", "doc:key-dropped", "doc:unknown-key", "doc:duplicate-key", "doc:key-case-changed", "doc:array-shortened", "doc:array-lengthened", "doc:kind-swapped", "doc:integer-boundary", "doc:top-level-empty", "entry:Unmarshal", "entry:Parse", "entry:Decoder", "entry:Decoder+UseNumber", "entry:Decoder+DisallowUnknownFields"},
+		FaultKinds: []string{"prior-state:prepopulated", "prior-state:left-by-earlier-decode", "prior-state:after-failed-decode(rebuilt)", "doc:null-subvalue", "doc:key-dropped", "doc:unknown-key", "doc:duplicate-key", "doc:key-case-changed", "doc:array-shortened", "doc:array-lengthened", "doc:kind-swapped", "doc:integer-boundary", "doc:top-level-empty", "entry:Unmarshal", "entry:Parse", "entry:Decoder", "entry:Decoder+UseNumber", "entry:Decoder+DisallowUnknownFields", "entry:Decoder-stream(one Decoder, successive values into one target)"},
 		ProbeNames: []string{"steps", "steps-both-ok", "steps-both-failed", "map-merged-into-non-empty", "slice-reused-with-capacity", "pointer-reused", "interface-held-pointer-present", "input-dimension-divergence-on-fresh-target(skipped, not claimed)"},
 		Real:       []string{"json.Unmarshal, json.Parse, json.Decoder and the whole decode path compiled from /repo's working tree (uninstrumented)"},
 		Model:      []string{"reference model: encoding/json of the toolchain applied to an isomorphic target, step by step"},
@@ -347,6 +347,14 @@ type c02Scenario struct {
 	Type  string    `json:"type"`
 	State []uint32  `json:"state"`
 	Steps []c02Step `json:"steps"`
+	// Stream: all steps are successive Decode calls on ONE Decoder per library
+	// (entry 2..5 of the first step gives the flags) over the concatenated
+	// documents: the history lives inside a single Decoder.
+	Stream bool `json:"stream,omitempty"`
+	// Preset names a hand-built initial state (literal witnesses): "iface-ptr-int"
+	// = a C02Rich whose I holds a *int and whose IP points to an interface
+	// holding a *int.
+	Preset string `json:"preset,omitempty"`
 }
 
 var c02EntryNames = []string{"Unmarshal", "Parse(b,x,0)", "Decoder.Decode", "Decoder.Decode+UseNumber", "Decoder.Decode+DisallowUnknownFields", "Decoder.Decode+UseNumber+DisallowUnknownFields"}
@@ -447,6 +455,13 @@ func c02GenScenario(r *core.Run) *c02Scenario {
 		}
 		sc.Steps = append(sc.Steps, c02Step{Entry: t.Pick(4, 3, 2, 1, 1, 1), Doc: doc})
 	}
+	if t.Chance(1, 5) {
+		sc.Stream = true
+		e := 2 + t.Intn(4)
+		for i := range sc.Steps {
+			sc.Steps[i].Entry = e
+		}
+	}
 	return sc
 }
 
@@ -463,6 +478,14 @@ func runC02(r *core.Run) {
 	rt := c02TypeByName(sc.Type)
 	seg, pre := c02State(sc.State, rt)
 	std, _ := c02State(sc.State, rt)
+	if sc.Preset == "iface-ptr-int" {
+		mk := func() reflect.Value {
+			n1, n2 := 5, 6
+			var a any = &n2
+			return reflect.ValueOf(&C02Rich{I: &n1, IP: &a})
+		}
+		seg, std, pre = mk(), mk(), 2
+	}
 	if !reflect.DeepEqual(seg.Interface(), std.Interface()) {
 		core.Harness("C02: the two initial targets are not isomorphic")
 	}
@@ -480,6 +503,10 @@ func runC02(r *core.Run) {
 			steps = append(steps, fmt.Sprintf("%s %s", c02EntryNames[s.Entry], clip(s.Doc, 160)))
 		}
 		r.Sample = map[string]any{"type": clipStr(sc.Type+" "+rt.String(), 300), "prepopulated": pre > 0, "initial_state": clipStr(fmt.Sprintf("%+v", std.Elem().Interface()), 300), "steps": steps}
+	}
+	if sc.Stream {
+		c02RunStream(r, sc, rt, seg, std)
+		return
 	}
 	var okDocs []c02Step
 	for i, s := range sc.Steps {
@@ -562,6 +589,92 @@ func runC02(r *core.Run) {
 					stdDecode(p.Entry, p.Doc, std.Interface())
 				}
 				continue
+			}
+			r.Fail("value-differs", "diff:"+how, "%s: targets differ at %s (%s)\n segmentio:     %s\n encoding/json: %s", where, path, how, clipStr(fmt.Sprintf("%+v", deref(seg)), 600), clipStr(fmt.Sprintf("%+v", deref(std)), 600))
+			r.ScenarioOut = sc
+			return
+		}
+	}
+}
+
+// c02RunStream drives one Decoder per library over the concatenated documents,
+// decoding every value into the same target.
+func c02RunStream(r *core.Run, sc *c02Scenario, rt reflect.Type, seg, std reflect.Value) {
+	var stream []byte
+	for _, s := range sc.Steps {
+		stream = append(stream, s.Doc...)
+		stream = append(stream, '\n')
+	}
+	entry := sc.Steps[0].Entry
+	r.Fault("entry:Decoder-stream(one Decoder, successive values into one target)")
+	sd := json.NewDecoder(bytes.NewReader(append([]byte(nil), stream...)))
+	rd := stdjson.NewDecoder(bytes.NewReader(append([]byte(nil), stream...)))
+	if entry == 3 || entry == 5 {
+		sd.UseNumber()
+		rd.UseNumber()
+	}
+	if entry == 4 || entry == 5 {
+		sd.DisallowUnknownFields()
+		rd.DisallowUnknownFields()
+	}
+	for i, s := range sc.Steps {
+		r.Probe("steps")
+		r.Steps++
+		r.SigAddBytes(s.Doc)
+		// scope guard, as in the step-by-step mode
+		f1, f2 := reflect.New(rt), reflect.New(rt)
+		e1, pan := segDecode(entry, append([]byte(nil), s.Doc...), f1.Interface())
+		e2 := stdDecode(entry, append([]byte(nil), s.Doc...), f2.Interface())
+		if pan != "" {
+			r.Fail("panic", "decode-panic:"+panicSite(pan), "document %s into a zero %s: panic: %s", clip(s.Doc, 300), sc.Type, pan)
+			r.ScenarioOut = sc
+			return
+		}
+		if (e1 == nil) != (e2 == nil) || (e1 == nil && !reflect.DeepEqual(f1.Interface(), f2.Interface())) {
+			r.Probe("input-dimension-divergence-on-fresh-target(skipped, not claimed)")
+			return // the two decoders can no longer be kept in step
+		}
+		if i > 0 && !std.Elem().IsZero() {
+			r.NonTrivial = true
+			r.Fault("prior-state:left-by-earlier-decode")
+		}
+		var errSeg error
+		func() {
+			defer func() {
+				if e := recover(); e != nil {
+					pan = fmt.Sprintf("%v\n%s", e, stackOfLibrary())
+				}
+			}()
+			errSeg = sd.Decode(seg.Interface())
+		}()
+		errStd := rd.Decode(std.Interface())
+		where := fmt.Sprintf("value %d/%d of one %s stream into %s, document %s", i+1, len(sc.Steps), c02EntryNames[entry], sc.Type, clip(s.Doc, 300))
+		if pan != "" {
+			r.Fail("panic", "decode-panic:"+panicSite(pan), "%s: panic: %s", where, pan)
+			r.ScenarioOut = sc
+			return
+		}
+		if (errSeg == nil) != (errStd == nil) {
+			key := "accepted-but-encoding/json-rejects"
+			if errSeg != nil {
+				key = "rejected-but-encoding/json-accepts"
+			}
+			r.Fail("error-presence", key+":"+c02ErrClass(errSeg, errStd), "%s: segmentio err=%v, encoding/json err=%v", where, errSeg, errStd)
+			r.ScenarioOut = sc
+			return
+		}
+		if errStd != nil {
+			r.Probe("steps-both-failed")
+			return // after an error the position of either decoder in the stream is not comparable
+		}
+		r.Probe("steps-both-ok")
+		if !reflect.DeepEqual(seg.Interface(), std.Interface()) {
+			path, how := firstDiff(seg.Elem(), std.Elem(), "x", 0)
+			if i := strings.Index(how, "ptr-to-ptr-null:"); i >= 0 {
+				how = how[i:]
+			}
+			if r.Known("value-differs", "diff:"+how) {
+				return
 			}
 			r.Fail("value-differs", "diff:"+how, "%s: targets differ at %s (%s)\n segmentio:     %s\n encoding/json: %s", where, path, how, clipStr(fmt.Sprintf("%+v", deref(seg)), 600), clipStr(fmt.Sprintf("%+v", deref(std)), 600))
 			r.ScenarioOut = sc
